@@ -30,6 +30,12 @@ def _run_shard(prop, tier, seed, shard, nshards, cases, timeout, hashseed, repla
     if replay:
         cmd += ["--replay", replay]
     env = dict(os.environ)
+    covdir = env.get("VERIF_COV")
+    if covdir:                                  # reach report (tools/reach.py): which repository lines the workload drives
+        os.makedirs(covdir, exist_ok=True)
+        cmd = [sys.executable, "-m", "coverage", "run", "--branch", f"--data-file={covdir}/.coverage.{prop}.{shard}",
+               f"--include={core.REPO}/hta/*"] + cmd[1:]
+        timeout = timeout * 4
     env["PYTHONHASHSEED"] = str(hashseed)
     env.setdefault("OMP_NUM_THREADS", "1")
     env.setdefault("OPENBLAS_NUM_THREADS", "1")
